@@ -92,7 +92,7 @@ def execute(sc: dict, seed: int) -> dict:
             if sc.get("only") is not None:
                 subs = [s for s in subs if s[0] == sc["only"]] or subs[:1]
             for i, (kind, k, s) in enumerate(subs):
-                detail = rng.choice(["all", "all", "hash", "repr", "context"])
+                detail = rng.choice(["all", "all"] + harness.DETAILS)
                 rr = harness.run_scenario(s, w, trace_mode=rng.choice(["file", "dir"]), detail=detail, name=f"t{i}")
                 oc = rr["outcome"]
                 stats["subruns"] = stats.get("subruns", 0) + 1
